@@ -18,7 +18,7 @@ SPELL_STATES = {
     "mix": {"q0": 0, "q1": "0", "q2": "é", "q3": "a->b"},
     "start": {"q0": "q", "q1": "starting_q", "q2": "starting_", "q3": "INITIAL_STACK_HIDDEN0"},   # look like the export's marker nodes
 }
-SPELL_SYMS = {"plain": {"a": "a", "b": "b"}, "int": {"a": 1, "b": 2}, "odd": {"a": "a b", "b": 'x"y'}, "mix": {"a": "a/b", "b": "é"},
+SPELL_SYMS = {"plain": {"a": "a", "b": "b"}, "int": {"a": 0, "b": 1}, "odd": {"a": "a b", "b": 'x"y'}, "mix": {"a": "a/b", "b": ""},
               "start": {"a": "a", "b": "starting_q"}}
 
 
